@@ -34,7 +34,10 @@ Token shapes appended to st.out:
     ("EOF",)
 """
 
-import r10_charref
+try:
+    from refs import r10_charref
+except ImportError:          # run from inside refs/ (validate_r1.py)
+    import r10_charref
 
 REPLACEMENT = "�"
 
